@@ -20,7 +20,7 @@ SPANS = {"january-february": ("2021-01-20", 20), "june": ("2021-06-03", 12), "oc
 _DOC = None
 
 
-def document(int_keys=False):
+def document(int_keys=False, holes=False):
     """stored form of a fitted model: the legacy document + the uncertainty inputs of every month (keys are month numbers:
     ints on a freshly fitted model object, strings once the document went through JSON)"""
     global _DOC
@@ -28,13 +28,22 @@ def document(int_keys=False):
         with open(FIXTURE) as f:
             _DOC = json.load(f)
     doc = copy.deepcopy(_DOC)
+    if holes:
+        # a baseline shorter than a year leaves segments without data: their occupancy column is all null (here the three
+        # segments centred on August-October; the reporting spans of SPANS avoid those months except "october-november")
+        ol = json.loads(doc["model"]["occupancy_lookup"])
+        for name in ("jul-aug-sep-weighted", "aug-sep-oct-weighted"):
+            j = ol["columns"].index(name)
+            for row in ol["data"]:
+                row[j] = None
+        doc["model"]["occupancy_lookup"] = json.dumps(ol)
     doc["model"]["unc_vars"] = {(m if int_keys else str(m)): {"mean_baseline_usage": 1.0 + 0.05 * m, "n": 2000.0 + m, "n_prime": 700.0 + 3 * m, "MSE": 0.04 + 0.001 * m}
                                 for m in range(1, 13)}
     return doc
 
 
-def model(int_keys=False):
-    return HourlyModel.from_dict(document(int_keys))
+def model(int_keys=False, holes=False):
+    return HourlyModel.from_dict(document(int_keys, holes))
 
 
 def frame(span, usage="present", tz="UTC", seed=3):
